@@ -591,19 +591,20 @@ theorem call_sim (code : List Instr) : ∀ (fuel : Nat), CallOK code (callFromSt
     | pair _ _ => simp [Val.isCallable] at hcal
     | builtin b =>
       simp only [callFromStack, applyFn, splitArgs_frame, hlen]
-      by_cases h1 : args'.length > b.arity
+      by_cases h1 : args'.length > b.want args'.length
       · simp only [h1, if_true]; exact post_err
       · simp only [h1, if_false]
-        by_cases h2 : args'.length = b.arity
-        · simp only [h2, beq_self_eq_true, if_true]
-          have cr := convertAll_rel (code := code) (ts := b.params) hargs
-          cases hc : convertAll b.params args with
+        by_cases h2 : args'.length = b.want args'.length
+        · have h2' : (args'.length == b.want args'.length) = true := by simpa using h2
+          simp only [h2', if_true]
+          have cr := convertAll_rel (code := code) (ts := b.paramsAt args'.length) hargs
+          cases hc : convertAll (b.paramsAt args'.length) args with
           | error e =>
-            cases hc' : convertAll b.params args' with
+            cases hc' : convertAll (b.paramsAt args'.length) args' with
             | error e' => simp only [hc, hc', ResRels] at cr; subst cr; exact post_err
             | ok _ => simp [hc, hc', ResRels] at cr
           | ok cs =>
-            cases hc' : convertAll b.params args' with
+            cases hc' : convertAll (b.paramsAt args'.length) args' with
             | error e' => simp [hc, hc', ResRels] at cr
             | ok cs' =>
               simp only [hc, hc', ResRels] at cr
@@ -626,8 +627,8 @@ theorem call_sim (code : List Instr) : ∀ (fuel : Nat), CallOK code (callFromSt
                 | tail g' xs' =>
                   simp only [hs, hs', StepRel] at sr ⊢
                   obtain ⟨hg, hxs⟩ := sr
-                  have hgc := step_tail_callable' hc hs
-                  obtain ⟨i1, i2⟩ := ih g g' xs xs' (.int b.arity :: (args'.reverse ++ S)) regs hg hgc hxs
+                  have hgc := step_tail_callable' (args := args) (by rw [hlen]; exact hc) hs
+                  obtain ⟨i1, i2⟩ := ih g g' xs xs' (.int args'.length :: (args'.reverse ++ S)) regs hg hgc hxs
                   rw [List.cons_append]
                   cases happ : applyFn fuel g xs with
                   | error e => rw [i1 e happ]; exact post_err
@@ -640,7 +641,7 @@ theorem call_sim (code : List Instr) : ∀ (fuel : Nat), CallOK code (callFromSt
                     subst hb'
                     have := step_tail_HO hs'
                     simp [hho] at this
-        · have h3 : (args'.length == b.arity) = false := by simpa using h2
+        · have h3 : (args'.length == b.want args'.length) = false := by simpa using h2
           simp only [h3, Bool.false_eq_true, if_false]
           exact post_ok (.part hf0 rfl rfl rfl rfl hargs) (fun _ _ _ => rfl)
     | clo ho hb hm =>
